@@ -90,6 +90,9 @@ var triples = [][3]string{
 	{`{"not":{}}`, `{"not":{}}`, `{"type":"string","minLength":2}`},
 	{`{"not":{}}`, `{"not":{}}`, `{"not":{}}`},
 	{`{}`, `{"type":"integer"}`, `{"not":{}}`},
+	// every position of the failing alternative among two matching ones (for an integer <= 2)
+	{`{"type":"string","minLength":2}`, `{"type":"integer"}`, `{"maximum":2}`},
+	{`{"type":"integer"}`, `{"type":"string","minLength":2}`, `{"maximum":2}`},
 }
 
 // Atoms returns every concrete atom (JSON object text), simplest first.
